@@ -52,6 +52,7 @@ type Contract struct {
 	Allocates   bool
 	ModifiesAll bool
 	MayPanic    bool
+	ImplicitOnly map[string][]string // "checks" clause: implicit-obligation kind -> tags
 	Auto        bool // lemma: also installed as a quantified axiom in the units of its package
 	View        bool // contract on a function of another package, as seen from this package
 	RefIface    string // refine: "pkg.Iface"
@@ -109,7 +110,7 @@ type PkgSpec struct {
 }
 
 var clauseKW = map[string]bool{"requires": true, "ensures": true, "modifies": true, "loop": true, "allocates": true,
-	"params": true, "vars": true, "pure": true, "trusted": true, "bounded": true, "assumes": true, "maypanic": true, "callers": true, "coupling": true, "model": true, "cut": true, "running": true, "atcall": true}
+	"params": true, "vars": true, "pure": true, "trusted": true, "bounded": true, "assumes": true, "maypanic": true, "checks": true, "callers": true, "coupling": true, "model": true, "cut": true, "running": true, "atcall": true}
 
 var headRe = regexp.MustCompile(`^(func|type|lemma|canary|refine)\s+(.*)$`)
 var tagsRe = regexp.MustCompile(`\[(C[0-9]+(?:\s*,\s*C[0-9]+)*)\]`)
@@ -353,6 +354,19 @@ func ParseContractFile(path, pkgPath string) (*PkgSpec, error) {
 			curClause = c
 		case "maypanic":
 			cur.MayPanic = true
+		case "checks":
+			// checks <kind>... [tags] : in this unit only implicit obligations of the listed kinds are
+			// obligations (with these tags); every other implicit obligation of the unit is not checked
+			rest, tags := parseTags(strings.TrimSpace(strings.TrimPrefix(text, "checks")))
+			if cur.ImplicitOnly == nil {
+				cur.ImplicitOnly = map[string][]string{}
+			}
+			for _, k := range strings.Fields(rest) {
+				cur.ImplicitOnly[k] = tags
+			}
+			if len(strings.Fields(rest)) == 0 {
+				cur.ImplicitOnly["-"] = nil
+			}
 		case "coupling":
 			c := &Clause{Kind: "coupling", Label: "coupling", Raw: strings.TrimSpace(strings.TrimPrefix(text, "coupling")), Line: ln + 1, Tags: cur.Tags}
 			cur.Coupling = c
@@ -725,6 +739,9 @@ func isnan(f float64) bool { panic("spec") }
 func feq(a, b float64) bool { panic("spec") }
 func fsame(a, b float64) bool { panic("spec") }
 func atoiOK(s string) bool { panic("spec") }
+func imhas(m any, k uint64) bool { panic("spec") }
+func imrow(m any) any { panic("spec") }
+func imget[V any](m any, k uint64) V { panic("spec") }
 func parseFloatOK(s string) bool { panic("spec") }
 func eqv[T any](a, b T) bool { panic("spec") }
 func field[T any](x any, name string) T { panic("spec") }
@@ -998,7 +1015,31 @@ func (e *Engine) GenerateOverlay(ps *PkgSpec, pkg *types.Package, fnByKey map[st
 			emit(c, con, us.params, "bool")
 		}
 		for _, c := range con.AtCalls {
-			ps := append(append([]string{}, loopParams...), splitTop(c.With, ",")...)
+			lp := loopParams
+			if fn := fnByKey[con.Key]; fn != nil {
+				// plain local names mean the declaration visible at the call site
+				if sites := e.callSitePositions(fn, c.Site); len(sites) > 0 {
+					lp = append([]string{}, loopParams...)
+					for i, prm := range lp {
+						f := strings.SplitN(prm, " ", 2)
+						if len(f) != 2 || strings.Contains(f[0], "__") {
+							continue
+						}
+						if v := scopedLocal(fn, f[0], sites[0]); v != nil {
+							isParam := false
+							for _, pn := range us.names {
+								if pn == f[0] {
+									isParam = true
+								}
+							}
+							if !isParam {
+								lp[i] = f[0] + " " + types.TypeString(v.Type(), q.f)
+							}
+						}
+					}
+				}
+			}
+			ps := append(append([]string{}, lp...), splitTop(c.With, ",")...)
 			emit(c, con, ps, "bool")
 		}
 		for _, k := range lks {
